@@ -38,6 +38,10 @@ func die(f string, a ...any) {
 
 var outPath string
 
+// a call of the bounded corpus takes milliseconds; one that has not returned after this
+// long is blocked
+const hangTimeout = 20 * time.Second
+
 func readJSON(path string, v any) {
 	b, err := os.ReadFile(path)
 	if err != nil {
@@ -160,7 +164,7 @@ func runOracle(c *proto.Corpus, order, ids string, seed uint64, free bool) {
 	default:
 		die("bad order")
 	}
-	out := proto.OracleOut{Order: order}
+	out := proto.OracleOut{Order: order, Hung: -1}
 	// steps are measured by running each call as a one-task simulated run when the build
 	// is instrumented (seq policy: no preemption)
 	c0 := capSize()
@@ -181,8 +185,33 @@ func runOracle(c *proto.Corpus, order, ids string, seed uint64, free bool) {
 				simrt.OpEnd(0)
 			})
 			steps = r.Steps
+			if r.Deadlock {
+				out.IDs = append(out.IDs, id)
+				out.Outcomes = append(out.Outcomes, "hung")
+				out.Steps = append(out.Steps, steps)
+				out.Hung = len(out.IDs) - 1
+				break
+			}
 		} else {
-			outcome, _, _ = invoke(call.Fn, call.Expr, arg)
+			// each call on its own goroutine with a generous watchdog, so that a call that
+			// blocks forever (a lock left behind by an earlier call) is an observation and
+			// not a crash of the oracle
+			done := make(chan string, 1)
+			go func() {
+				o, _, _ := invoke(call.Fn, call.Expr, arg)
+				done <- o
+			}()
+			select {
+			case outcome = <-done:
+			case <-time.After(hangTimeout):
+				out.IDs = append(out.IDs, id)
+				out.Outcomes = append(out.Outcomes, "hung")
+				out.Steps = append(out.Steps, 0)
+				out.Hung = len(out.IDs) - 1
+			}
+			if out.Hung >= 0 {
+				break
+			}
 		}
 		if a != nil {
 			if d := a.changed(); d != "" {
